@@ -21,12 +21,65 @@ def finiteOf (r : D128R) : Option Dec :=
   | .fin d => some d.toDec
   | _ => none
 
+/-! ## `**` for exponents with an integral value, where the result is exact
+
+`FeelNumber::pow` (`number.rs:166`) is `decNumberPower` followed by `decNumberReduce`; a result that is not
+finite is `None` (FEEL null).  For an exponent with an integral value `decNumberPower` multiplies (by squaring)
+at a working precision of more than 34 digits and, for a negative exponent, divides 1 by the power, then rounds
+once to 34 digits: when the exact power has at most 34 significant digits — and, for a negative exponent, its
+reciprocal is a terminating decimal of at most 34 digits — every step is exact and the result is the exact
+value, reduced.  Exactly those cases are modelled (`some`); everything else (a fractional exponent, an inexact
+result, a negative zero base, very large operands) stays outside the model (`none`: the correspondence skips
+and counts).  The exact value is rounded by the proved `finalize` (a no-op here: `exactly` checks it). -/
+
+def natDigits10 (n : Nat) : Nat := if n == 0 then 0 else (Nat.toDigits 10 n).length
+
+/-- the finite result `r` is exactly `c · 10^e` -/
+def exactly (r : D128R) (c : Nat) (e : Int) : Bool :=
+  match r with
+  | .fin d =>
+    let lo := min d.exp e
+    d.coeff * 10 ^ (d.exp - lo).toNat == c * 10 ^ (e - lo).toNat
+  | _ => false
+
+/-- `a ** n` for an integer `n`: `some none` = not finite (`0 ** 0`, `0 ** -n`), `none` = not modelled -/
+def powInt (a : Dec) (n : Int) : Option (Option Dec) :=
+  if a.coeff == 0 then
+    if a.neg then none
+    else if n > 0 then some (some ⟨false, 0, 0⟩) else some none
+  else if n == 0 then some (some ⟨false, 1, 0⟩)
+  else
+    let k := n.natAbs
+    if k * natDigits10 a.coeff > 200 ∨ a.exp.natAbs * k > 2000 then none
+    else
+      let p := a.coeff ^ k
+      let neg := a.neg && (k % 2 == 1)
+      if n > 0 then
+        let r := D128.finalize neg p (a.exp * k) false
+        if exactly r p (a.exp * k) then (finiteOf r.reduce).map some else none
+      else if natDigits10 p > 34 then none
+      else
+        match (List.range 120).find? (fun t => 10 ^ t % p == 0) with
+        | some t =>
+          let q := 10 ^ t / p
+          let e : Int := -(a.exp * k) - t
+          let r := D128.finalize neg q e false
+          if exactly r q e then (finiteOf r.reduce).map some else none
+        | none => none
+
+/-- the exponent as an integer, when it has an integral value of moderate size -/
+def powExponent? (b : Dec) : Option Int :=
+  if b.exp > 6 ∨ b.exp < -40 then none else D128.toInt? b.toD128
+
 def NumOps.d128 : NumOps where
   add := fun a b => finiteOf (FNum.add (.fin a.toD128) (.fin b.toD128))
   sub := fun a b => finiteOf (FNum.sub (.fin a.toD128) (.fin b.toD128))
   mul := fun a b => finiteOf (FNum.mul (.fin a.toD128) (.fin b.toD128))
   div := fun a b => finiteOf (FNum.div (.fin a.toD128) (.fin b.toD128))
-  pow := fun _ _ => none
+  pow := fun a b =>
+    match powExponent? b with
+    | some n => powInt a n
+    | none => none
   literal := fun before after => some ((D128.ofLiteral before.toList after.toList).map D128.toDec)
 
 end Dmn
